@@ -9,6 +9,7 @@ type harnessSpec struct {
 	ThoroughOnly bool
 	Steps        int64
 	Conc         int
+	TimeFixed    bool     // time.Now returns a fixed instant
 	Stall        bool     // a path that exhausts its step budget is a candidate stall, replayed natively under a watchdog
 	Labels       []string // vReach labels that must be reached (vacuity witnesses)
 	Bound        string   // the bound in words (quick)
@@ -227,6 +228,24 @@ func init() {
 			{Pkg: "aac", Func: "HarnessC07_AacEnums", Labels: []string{"c07-aac-enums"}, Bound: "all aac enum helpers, receiver symbolic over uint8"},
 			{Pkg: "avc", Func: "HarnessC07_Avc", Stall: true, Labels: []string{"c07-avc", "c07-avc-record", "c07-avc-sample"}, Bound: "NALU / record / sample (length size 1..4) UnmarshalBinary on every byte string of 0..10 bytes (thorough 0..14)"},
 			{Pkg: "avc", Func: "HarnessC07_AvcEnums", Labels: []string{"c07-avc-enums"}, Bound: "NALUType (uint8), AVCProfile (uint16), AVCLevel (uint8) String() over their whole range"},
+		},
+	})
+	wsAssume := append([]string{
+		"connections are constructed directly (newConn over an in-harness net.Conn); Dial/Upgrade, per-message compression and the JSON helpers are outside the claim (net/http, SHA-1, compress/flate, encoding/json are not encodable)",
+		"time.Now returns a fixed instant and timers never fire (write deadlines and the 1000 h lock wait never expire)",
+		"websocket.maskBytes on buffers of 16 bytes or more is replaced by the byte-wise semantics of mask_safe.go (the word-wise unsafe loop is not encodable); below 16 bytes the real function is interpreted; the mask key source (math/rand) is an unconstrained symbolic value",
+	}, commonAssumptions...)
+	reg(&propSpec{
+		ID:          "C14",
+		Rule:        "Harnesses in harness/websocket/c14.go against a reference RFC 6455 receiver written in the harness: one frame from an arbitrary valid reader state with the whole header symbolic; sequences of frames of forked kinds with symbolic payloads; cut streams.",
+		Assumptions: append([]string{"a one-byte close payload is not in the property's list and is not generated", "reader state invariant for the one-step harness: readLength <= readLimit when a limit is set, readLength = 0 when no message is in progress, both below 2^40"}, wsAssume...),
+		Harnesses: []harnessSpec{
+			{Pkg: "websocket", Func: "HarnessC14_Step", TimeFixed: true, Labels: []string{"step-close", "step-close-bad", "step-data", "step-limit", "step-ping", "step-pong", "step-violation"},
+				Bound: "both roles; 24 symbolic input bytes (2 header bytes, the 16/64-bit extended length incl. 2^63 and above, mask key, payload); state readFinal/readLength/readLimit symbolic; close frames up to code + 2 reason bytes, ping/pong up to 8 bytes"},
+			{Pkg: "websocket", Func: "HarnessC14_Seq", TimeFixed: true, Labels: []string{"seq-close", "seq-eof", "seq-limit", "seq-violation"},
+				Bound:  "both roles; sequences of 2 frames over 16 frame kinds (8 conformant incl. fragments/ping/pong/close, 8 violating: RSV, reserved opcode, fragmented or oversized control, wrong mask, bad close code, non-UTF-8 reason, top-bit length); first frame in 7/16/64-bit length form with 0/1/3 symbolic payload bytes; read limit in {none, 2}",
+				BoundT: "sequences of 3 frames; read limit in {none,1,2,4}; whole and 1-byte reads"},
+			{Pkg: "websocket", Func: "HarnessC14_Cut", TimeFixed: true, Labels: []string{"cut"}, Bound: "one message of 1-2 frames (1-3 + 0-2 symbolic bytes, 7/16-bit length form) cut at every offset inside it; whole and 1-byte reads"},
 		},
 	})
 }
